@@ -30,6 +30,7 @@ CONSTANTS Names,        \* vessel names
           FillDeltas,   \* target = reference well's current measure + delta
           DiluteCases,  \* sequence of [n, solute, nu, du, solvent]
           DiluteYs,     \* solvent amounts whose resulting concentration is requested (inverse construction)
+          NearTargets,  \* BOOLEAN: also request concentrations 5 ppm below / above the current one
           NewCases,     \* sequence of [n, cap, entries]
           SolCases,     \* set of create_solution cases, see CreateSolution
           FromCases,    \* set of create_solution_from cases, see CreateSolutionFrom
@@ -225,6 +226,9 @@ DiluteTargets(c) ==
       ELSE IF IsZero(den) \/ IsZero(num) THEN {}
       ELSE {Conc(Plus(w.c, Only(c.solvent, y)), c.solute, c.nu, c.du) : y \in DiluteYs}
            \cup {Mul(R(3, 2), Div(num, den))}
+           \* just below / just above the current concentration (5 parts per million): the first is an ordinary
+           \* dilution by a tiny amount, the second must be refused
+           \cup (IF NearTargets THEN {Mul(R(199999, 200000), Div(num, den)), Mul(R(200001, 200000), Div(num, den))} ELSE {})
 
 DiluteV(V, c, t) ==
   LET w == V[c.n].w[1]
@@ -239,6 +243,8 @@ Dilute(c, t) ==
       /\ last' = [op |-> "dilute", n |-> c.n, solute |-> c.solute, nu |-> c.nu, du |-> c.du,
                   solvent |-> c.solvent, t |-> t, res |-> IF r.ok THEN "ok" ELSE "ValueError", cls |-> r.cls,
                   y |-> r.y,
+                  near |-> (t = Mul(R(199999, 200000), Div(Single1(c.solute, w.c[c.solute], c.nu), Measure(w.c, c.du)))
+                            \/ t = Mul(R(200001, 200000), Div(Single1(c.solute, w.c[c.solute], c.nu), Measure(w.c, c.du)))),
                   ncomp |-> Cardinality(Support(w.c) \cup {c.solvent}),
                   solventPresent |-> ~IsZero(w.c[c.solvent])]
 
